@@ -302,6 +302,38 @@ Theorem update_serial_stores_the_rfc1982_sum :
 Proof. exact update_serial_effect. Qed.
 Print Assumptions update_serial_stores_the_rfc1982_sum.
 
+(* update_serial, the full table: every value, relative or absolute, given an SOA at the origin *)
+Theorem update_serial_full_table :
+  forall c, wfc c -> forall s body serial items ttl value relative,
+  swf (rs_entries s) ->
+  r_get c s [] tSOA 0 = Ok (Some (mkRds cIN tSOA 0 ttl ((body, serial) :: items))) ->
+  let t := mkTxn s false false in
+  let result := hl_update_serial (rstore c) c value relative None t in
+  if value <? 0 then result = Lib eValueError
+  else if relative && (value >? 2147483647) then result = Lib eValueError
+  else
+    let sum := if relative then (serial mod 4294967296 + value) mod 4294967296 else value mod 4294967296 in
+    exists s', result = Ok (mkTxn s' false false) /\
+               r_get c s' [] tSOA 0 = Ok (Some (mkRds cIN tSOA 0 ttl [(body, bump sum)])).
+Proof. exact update_serial_table. Qed.
+Print Assumptions update_serial_full_table.
+
+Theorem update_serial_without_soa_is_keyerror :
+  forall c s value relative, 0 <= value -> r_get c s [] tSOA 0 = Ok None ->
+  hl_update_serial (rstore c) c value relative None (mkTxn s false false) = Lib eKeyError.
+Proof. exact update_serial_no_soa. Qed.
+Print Assumptions update_serial_without_soa_is_keyerror.
+
+(* changed() is truthful: while it answers False, the version's node map is literally the one it started from *)
+Theorem changed_false_means_untouched :
+  forall c mode z ops t',
+  Forall op_valid ops ->
+  final_txn (zstore c) c ops z (open_txn (zstore c) mode z) = Some t' ->
+  s_changed (zstore c) (t_st t') = false ->
+  v_nodes (t_st t') = v_nodes (t_st (open_txn (zstore c) mode z)).
+Proof. exact changed_is_truthful. Qed.
+Print Assumptions changed_false_means_untouched.
+
 (* no Python-level exception escapes: the partial operations of the model (`del self.nodes[name]` in
    delete_rdataset - the KeyError of the defect fixed by 2d6b3bb -, the assertion in _add) never fail *)
 Theorem no_python_exception_escapes :
